@@ -224,7 +224,10 @@ class G:
             lambda: U.module_function, lambda: complex(1, 2), lambda: bytearray(b"x"), lambda: np.array(U.Plain(1, 2), dtype=object),
             lambda: U.HiddenState([1, 2, 3]), lambda: object(), lambda: Ellipsis, lambda: U.Color.RED, lambda: 1 + 2j,
             lambda: memoryview(b"ab"), lambda: iter([1]), lambda: U.MyDefaultDict(list, {"a": [1]}),
-            lambda: [b"one", b"two", U.NestedDump(3), b"three"], lambda: np.bytes_(b"ab"), lambda: U.MyBytes(b"ab"), lambda: U.MyByteArray(b"cd"), lambda: [np.bytes_(b"x"), b"y"],
+            lambda: [b"one", b"two", U.NestedDump(3), b"three"], lambda: [U.ScalarState(10.0), U.ScalarState(20.5), U.ScalarState(31.25), U.ScalarState(-4.0)],
+            lambda: [1, U.RaisesStopIteration(), 2], lambda: (U.SometimesRaises(True), [U.SometimesRaises(False)]),
+            lambda: np.zeros(2, dtype=[("name", object), ("x", "i4")]), lambda: np.dtype([("name", object), ("y", "f8")]),
+            lambda: [np.dtype("int32"), np.dtype("float64"), np.dtype(">i2"), np.dtype("float64")], lambda: np.bytes_(b"ab"), lambda: U.MyBytes(b"ab"), lambda: U.MyByteArray(b"cd"), lambda: [np.bytes_(b"x"), b"y"],
             lambda: np.float64(1.5).__add__, lambda: slice(np.int64(1), None), lambda: U.Plain(np.arange(3), {"k": U.Plain(1, 2)}),
         ]
         return r.choice(makers)(), False
